@@ -1,0 +1,13 @@
+//go:build verif
+
+package gostatsd
+
+// Contracts checked / assumed by /verif/gvc. Comment-only file (build tag verif).
+
+// Calls through the pipeline interface leave the caller's private parsing state alone: no
+// pipeline handler holds a reference to a parser's lexer, metric pool or to the parser itself
+// (ownership assumption; lexer.Lexer is referenced only in internal/lexer and pkg/statsd/parser.go).
+//@ func (PipelineHandler).DispatchEvent
+//@   trusted
+//@   modifies everything
+//@   preserves lexer.Lexer, pool.MetricPool, statsd.DatagramParser
